@@ -6,7 +6,7 @@ from collections import Counter
 from .core import VERIF
 from .lib import callers, status_const_of_ctor
 from .lib_c16 import (PANIC_KINDS_TEXT, SELECT_OUT, SERVE, SPAWN, accept_arms, after_await, awaits, discr_switches, exits_only_on_close_signal,
-                      load_panic_table, panic_sites, result_switches_of, return_defs, rta_region, server_task, slice_has_call_at, variant_edge)
+                      load_panic_table, norm_fid, panic_sites, result_switches_of, return_defs, rta_region, server_task, slice_has_call_at, variant_edge)
 
 LEVEL = "other"
 TECHNIQUE = "static analysis: path rules on the MIR of the accept loops and the request wrapper (error edges never leave the loop, never reach a return or a panic), forward flow of connection futures, closed census of potential panic sites over the accept-path and request-path call-graph regions against a reviewed table"
@@ -191,7 +191,7 @@ def r3_errors_become_responses(ctx):
         ctx.check(R, "renderer-total:%s" % f.id, ty.startswith("http::Response<"), "%s returns %s" % (f.id, ty[:60]), f, nontrivial=False)
     # Service::call hands hyper exactly that future
     who = [(f, bb) for f, bb, t in callers(ctx.ds, r"^server::http_request_handle_wrap$")]
-    ok = len(who) == 1 and "hyper::service::Service" in who[0][0].id and slice_has_call_at(who[0][0].slice({"l": 0, "p": []}), who[0][1]) and who[0][0].must_pass([who[0][1]])
+    ok = len(who) == 1 and "Service<" in who[0][0].id and slice_has_call_at(who[0][0].slice({"l": 0, "p": []}), who[0][1]) and who[0][0].must_pass([who[0][1]])
     ctx.check(R, "service-call-returns-the-wrapper-future", ok, "callers of http_request_handle_wrap: %s" % [f.id for f, _ in who], who[0] if who else None)
     s400 = status_const_of_ctor(ctx.ds, "for_bad_request")
     for src in ("hyper::Error", "http::Error"):
@@ -219,7 +219,7 @@ def _census(ctx, R, region_name, fids, rows):
     for fid in sorted(fids):
         g = ctx.ds.F[fid]
         for kind, what, bucket, bb in panic_sites(g):
-            k = (region_name, fid, ("macro-" + kind) if bucket else kind, what)
+            k = (region_name, norm_fid(fid), ("macro-" + kind) if bucket else kind, what)
             found[k] += 1
             where.setdefault(k, (g, bb))
     for k in sorted(found):
@@ -298,7 +298,7 @@ SELFTEST = [
                (_S, "                                warn!(log, \"tls accept err: {}\", e);", "                                warn!(log, \"tls accept err: {}\", e);\n                                continue;")]},
     {"name": "wrap-ok-through-local-and-logging", "kind": "benign", "why": "behaviour-preserving: result bound before return; an extra trace line",
      "edits": [(_S, "    Ok(response)\n}\n\nasync fn http_request_handle<C: ServerContext>(", "    trace!(request_log, \"responding\");\n    let out = Ok(response);\n    out\n}\n\nasync fn http_request_handle<C: ServerContext>(")]},
-    {"name": "if-let-on-handle-result", "kind": "benign", "why": "behaviour-preserving: a debug line on the error arm and in both accept arms",
+    {"name": "extra-debug-lines", "kind": "benign", "why": "behaviour-preserving: a debug line on the error arm and in both accept arms",
      "edits": [(_S, "            error.into_response(&request_id)\n", "            debug!(request_log, \"rendering error response\");\n            error.into_response(&request_id)\n"),
                (_S, "\n" + _I28 + "tokio::spawn(fut);\n", "\n" + _I28 + "debug!(log, \"connection task spawned\");\n" + _I28 + "tokio::spawn(fut);\n")]},
     {"name": "sleep-tuned", "kind": "benign", "why": "property-preserving: back-off after a resource-exhaustion accept error changed from 100 ms to 50 ms",
